@@ -123,6 +123,9 @@ def pred(case):
             return pred_forms(case)
         if it == 'seqarg':
             return pred_seq(case)
+        if it == 'lstsqcond':
+            ok_, d_ = pred_cond(case)
+            return (True if ok_ is None else ok_), d_
         if it == 'jsum':
             s, a, b = case['s'], case['alpha'], case['beta']
             x = np.asarray(case['x'], dtype=float)
@@ -645,6 +648,64 @@ def seq_cases(rng, reps, args=None, values=None, extra=None):
 
 
 # ------------------------------------------------------------------------------------------------
+# lstsq on independent but ill-conditioned designs (sub-aperture masks, many modes)
+# ------------------------------------------------------------------------------------------------
+def cond_design(case):
+    """(modes (k, n, n), data with NaN outside the kept sub-aperture, synthesising coefficients, cond of the kept design matrix)"""
+    P, qp, J = _impl()
+    from prysm.coordinates import make_xy_grid, cart_to_polar
+    n, k = case['n'], case['k']
+    x, y = make_xy_grid(n, diameter=2)
+    r, t = cart_to_polar(x, y)
+    nms = [P.fringe_to_nm(j) for j in range(1, k + 1)]
+    modes = np.asarray(P.zernike_nm_seq(nms, r, t))
+    kind, cx, cy, rad = case['mask']
+    if kind == 'disc':
+        keep = np.hypot(x - cx, y - cy) <= rad
+    elif kind == 'strip':
+        keep = (np.abs(x - cx) <= rad) & (r <= 1)
+    else:
+        keep = (np.hypot(x - cx, y - cy) <= rad) & (np.hypot(x - cx, y - cy) >= 0.5 * rad)
+    c = np.asarray(case['c'], dtype=float)
+    data = np.tensordot(modes, c, axes=(0, 0))
+    data = np.array(data, dtype=float)
+    data[~keep] = np.nan
+    A = modes.reshape(k, -1)[:, keep.ravel()].T
+    sv = np.linalg.svd(A, compute_uv=False)
+    cond = float(sv[0] / sv[-1]) if sv[-1] > 0 else float('inf')
+    return modes, data, c, cond, int(keep.sum())
+
+
+COND_RANGE = (1e4, 1e9)
+
+
+def pred_cond(case):
+    """the fit must return the synthesising coefficients to ~ cond * eps: a backward-stable solve of the design matrix meets
+    1e3 * cond * eps, a solve of the normal equations (cond^2 * eps) does not"""
+    P, qp, J = _impl()
+    modes, data, c, cond, kept = cond_design(case)
+    if not (COND_RANGE[0] <= cond <= COND_RANGE[1]) or kept < 2 * len(c):
+        return None, f'design outside the family (cond {cond:.3g}, {kept} samples)'
+    got = np.asarray(P.lstsq(modes, data), dtype=float)
+    eps = np.finfo(float).eps
+    tol = 1e3 * cond * eps * max(1.0, float(np.max(np.abs(c))))
+    err = float(np.max(np.abs(got - c))) if got.shape == c.shape and np.isfinite(got).all() else float('inf')
+    return err <= tol, (f'lstsq on a sub-aperture ({kept} samples, {len(c)} Zernike terms, cond {cond:.3g}): max coefficient error {err:.3g}; '
+                        f'a stable solve of the design matrix stays below 1e3 * cond * eps = {tol:.3g}')
+
+
+def cond_cases(rng, thorough=False):
+    out = []
+    masks = [('disc', 0.3, 0.2, 0.45), ('disc', -0.4, 0.1, 0.35), ('disc', 0.0, 0.5, 0.4), ('strip', 0.5, 0.0, 0.25), ('strip', -0.3, 0.0, 0.3),
+             ('ring', 0.2, -0.2, 0.5), ('disc', 0.5, 0.5, 0.3), ('disc', 0.1, -0.1, 0.6)]
+    for n in ((48, 64) if not thorough else (48, 64, 96)):
+        for k in (15, 21, 28, 36):
+            for mk in masks:
+                out.append({'item': 'lstsqcond', 'n': n, 'k': k, 'mask': list(mk), 'c': [float(int(v)) / 16 for v in rng.integers(-32, 33, k)]})
+    return out
+
+
+# ------------------------------------------------------------------------------------------------
 # argument forms: dtypes of modes / weights / coordinates, signed m, consumers
 # ------------------------------------------------------------------------------------------------
 MODE_DTYPES = ['f64', 'f32', 'i64', 'bool', 'c128']
@@ -1111,10 +1172,25 @@ def correspondence(ctx):
 
     # ------------------------------------------------ compute_z_zprime_Q2d : total sag
     qkinds = ['cos', 'sin', 'mixed', 'holes', 'ragged', 'm1long', 'equal']
-    for ci in range(ctx.scale(1000, 12000)):
-        kind = qkinds[ci % len(qkinds)]
-        cm0, ams, bms = q2d_content(rng, kind, ctx.scale(4, 5), ctx.scale(6, 8))
-        u, t = float(rng.uniform(0.1, 0.95)), float(rng.uniform(0, 6.2))
+    # SYSTEMATIC single-term content first: one-hot radial vectors at every position of every length 1..7 (thorough ..9), cosine-only
+    # and sine-only separately, every azimuthal order 1..6 - every (side, m, length, position) guard of the accumulation is exercised
+    # whatever the seed (seeded C07-r5m2: the m = 1 correction of the sine side guarded by N > 3)
+    onehot = []
+    for m in range(1, 7):
+        for n in range(1, ctx.scale(8, 10)):
+            for pos in range(n):
+                v = [1.0 if i == pos else 0.0 for i in range(n)]
+                pad = [[] for _ in range(m - 1)]
+                onehot.append(('onehot-cos', [], pad + [v], pad + [[]]))
+                onehot.append(('onehot-sin', [], pad + [[]], pad + [v]))
+    for ci in range(len(onehot) + ctx.scale(1000, 12000)):
+        if ci < len(onehot):
+            kind, cm0, ams, bms = onehot[ci]
+            u, t = (0.3, 0.4) if ci % 2 else (0.8, 2.0)
+        else:
+            kind = qkinds[ci % len(qkinds)]
+            cm0, ams, bms = q2d_content(rng, kind, ctx.scale(4, 5), ctx.scale(6, 8))
+            u, t = float(rng.uniform(0.1, 0.95)), float(rng.uniform(0, 6.2))
         case = {'item': 'q2dsag', 'cm0': cm0, 'ams': ams, 'bms': bms, 'u': [u], 't': [t]}
         nz = bool(cm0) or any(len(a) for a in ams) or any(len(b) for b in bms)
         ctx.case('q2dsag', case, nontrivial=nz, tag=kind + ('/m0' if cm0 else '/no-m0'))
@@ -1250,6 +1326,15 @@ def correspondence(ctx):
         ok, detail = pred(case)
         if not ok:
             ctx.pred_fail(case['item'], case, detail)
+    # ------------------------------------------------ fit inverts synthesis on ill-conditioned (sub-aperture) designs
+    for case in cond_cases(rng, ctx.thorough):
+        ok, detail = pred_cond(case)
+        if ok is None:
+            ctx.filtered_known['lstsqcond-design-outside-condition-range'] += 1
+            continue
+        ctx.case('lstsqcond', case, nontrivial=True, tag=f'k{case["k"]}/{case["mask"][0]}')
+        if not ok:
+            ctx.pred_fail('lstsqcond', case, detail)
     # ------------------------------------------------ every sequence argument in every container form
     for case in seq_cases(rng, ctx.scale(2, 12)):
         ctx.case('seqarg', case, nontrivial=True, tag=f'{case["routine"]}/{case["form"]}')
@@ -1470,8 +1555,13 @@ MANIFEST_ENTRY = {
              'the contraction equals the weighted sum; np.tensordot itself is trusted). (6) lstsq: lstsq_recovers (unique minimiser of the '
              'masked cost = synthesising coefficients when the modes are independent on the finite samples), lstsq_ignores_invalid, and '
              'the bridge normal_equations_minimise (any vector satisfying the normal equations on the kept samples minimises the masked '
-             'cost); the executable oracle lstsqNormal is NOT proved to solve them - instead every reply of the driver is re-checked '
-             'exactly (rational arithmetic) against the normal equations at run time, and the harness refuses a reply without that flag. '
+             'cost), its converse minimiser_iff_normal_equations, normal_equations_unique (independent modes: at most one solution for '
+             'ANY data), normal_equations_recover (every solution of the normal equations IS the synthesising vector) and '
+             'lstsq_exists_unique (independent modes: the Gram matrix is invertible, exactly one minimiser for ANY data); '
+             'the executable oracle lstsqNormal is NOT proved to solve them - instead every reply of the driver is re-checked '
+             'exactly (rational arithmetic) against the normal equations at run time, and the harness refuses a reply without that flag '
+             '(flagged_reply_is_synthesis, a theorem about the executed list program normalResidual: a flagged reply is the synthesising '
+             'vector whenever the kept modes are independent). '
              'TRANSLATED from the current source each run and proved equal to the model (gen_* theorems): recurrence_abc (both branches '
              'and the branch test), the sweep step / which coefficient order feeds a,b vs c / read-write indices / loop bounds / seeds / '
              'one-term guards of jacobi_sum_clenshaw, change_basis_Qbfs_to_Pn, clenshaw_qbfs, change_of_basis_Q2d_to_Pnm, clenshaw_q2d; '
@@ -1487,7 +1577,10 @@ MANIFEST_ENTRY = {
              'they are called through the aliasing / coordinate-form items only. EXECUTED INPUT FORMS: list / tuple / ndarray (int64, '
              'float32, float64) coefficients evaluated twice on the same objects; float64 / float32 / int / 0-d / 2-D / 3-D / strided '
              'coordinates and Python / NumPy scalars; signed m; modes of dtype f64 / f32 / i64 / bool / c128 with weights f64 / f32 / i64 / '
-             'c128 / list, mismatched lengths must raise; lstsq with C / F / transposed / strided / reversed layouts of data and modes, 1-D '
+             'c128 / list, mismatched lengths must raise; one-hot 2D-Q content (every position of every length 1..7, cosine-only and '
+             'sine-only separately, every m = 1..6) before the random content; lstsq on ill-conditioned sub-aperture designs (15..36 '
+             'Zernikes, measured cond 1e4..1e9, coefficients recovered to 1e3 cond eps: a normal-equations solve fails it); '
+             'lstsq with C / F / transposed / strided / reversed layouts of data and modes, 1-D '
              'data, modes as list, one-row and one-column grids, +-inf and NaN masks, poisoned modes at masked samples; every sequence '
              'argument (s, cs, cns, coefs, cm0, ams, bms and their inner lists, nms and its rows, coefs of the packer, modes of '
              'sum_of_2d_modes and lstsq; weights as list / tuple / ndarray only, as documented) as list / tuple / ndarray / generator / '
